@@ -19,7 +19,8 @@
 (*     domain first, then slice / ellipsis / list / field-wise tuple with ellipsis      *)
 (*     padding, a per-field integer / slice / integer-list) followed by RUpdate (fixed  *)
 (*     fields dropped, listed fields restricted and re-ordered, orthogonal take).  R    *)
-(*     also predicts the exception family the code raises.                              *)
+(*     also predicts the exception family the code raises, and the class the MDP tables  *)
+(*     turn it into (WrapMDP).                                                          *)
 (* (P) invariants at the bottom: R and O agree on every selector whose meaning the      *)
 (*     statement fixes; full key = array cell; nested single-field indexing = the same  *)
 (*     cell; an outer-domain element always wins; list selection restricts and orders;  *)
@@ -259,6 +260,10 @@ RUpdate(v, ix) ==
                        [] OTHER -> v[f]
                 ELSE v[f]
   IN [f \in 1..Len(v) |-> upd(f)]
+\* StateTable.__getitem__ (all MDP tables, TabularPolicy included) turns KeyError, IndexError, DomainError and
+\* ValueError (SliceError and the shape check of a new table are ValueErrors) into StateActionIndexError;
+\* an AssertionError (two ellipses) passes through
+WrapMDP(fam) == IF fam \in {"Key", "Index", "Domain", "Value", "Slice"} THEN "SAIE" ELSE fam
 \* numpy: integer, slice, integer-list -> the indexed axis comes first; the code keeps the index in field order
 QuirkIx(ix) == Len(ix) = 3 /\ ix[1].k = "int" /\ ix[2].k = "slice" /\ ix[3].k = "list"
 RSel(T, v, sel) ==
@@ -360,7 +365,7 @@ TransRec(T, D, e) ==
   [sel |-> e.sel, strict |-> Strict(D, e.sel), foreign |-> Foreign(D, e.sel), outer |-> IsOuterElem(D, e.sel),
    cls |-> Classes(D, e.sel),
    ost |-> e.o.st, odoms |-> e.o.d.doms, ocells |-> IF e.o.st = "ok" THEN CellSeq(e.o.d) ELSE <<>>,
-   rst |-> e.r.st, rfam |-> e.r.fam, same |-> same, garbled |-> e.r.garbled,
+   rst |-> e.r.st, rfam |-> e.r.fam, rfamMdp |-> WrapMDP(e.r.fam), same |-> same, garbled |-> e.r.garbled,
    \* surviving (open) fields of the result; is it a row: every field but the last one fixed
    names |-> IF e.r.st = "ok" THEN OpenSeq(e.r.view) ELSE <<>>,
    row |-> e.r.st = "ok" /\ OpenSeq(e.r.view) = <<NF(T)>> /\ NF(T) >= 2,
